@@ -357,9 +357,9 @@ func c10fRun(env *c10Env, m c10fSink, dead *ebpf.Map, h *c10Hist, stats map[stri
 			if e != nil {
 				return nil, f, e
 			}
-			if fl != nil && f.mode == c10fTableFullAny && os.Getenv("VERIF_C10F_JUDGE_ANY") == "" { // the switch is for trying out a repair of dae only
+			if fl != nil && f.mode == c10fTableFullAny && os.Getenv("VERIF_C10F_RECORD_ANY") != "" { // judged since dae restores the kernel view after a failed batch (fix in /repo); the switch only records
 				// after a partially applied batch the tracker cannot know which keys reached the kernel; a
-				// second sync of the same owner before the retry orphans them. Outside this oracle: recorded.
+				// second sync of the same owner before the retry orphaned them.
 				m.Count("observed_not_judged/"+f.mode+"/table-differs-after-retry-round/"+strings.TrimPrefix(fl.Sig, "write-fault/"+f.mode+"/not-healed-after-writes-recovered-and-every-entry-was-hit-or-resolved-again/"), 1)
 				return nil, f, nil
 			}
